@@ -5,7 +5,7 @@
 
 package controlplane
 
-//@ for C15
+//@ for C15 C18
 
 //@ func ParsePodNetworksFromAnnotation
 //@   requires pod != nil
